@@ -334,6 +334,7 @@ fn cleanup_escape_ws(parts: &mut [StringPart]) {
         if let StringPart::Raw(s) = item
             && s.starts_with('\\')
             && s.ends_with(' ')
+            && s != "\\ "
         {
             match t_iter.peek() {
                 None => {
@@ -343,6 +344,7 @@ fn cleanup_escape_ws(parts: &mut [StringPart]) {
                     if let Some(next) = next.chars().next()
                         && !next.is_ascii_hexdigit()
                         && next != '\t'
+                        && next != ' '
                     {
                         s.pop();
                     }
